@@ -112,6 +112,19 @@ def step (st : St) (w : List String) : St × String :=
       let a := if getCellValueM sh ms' c r = ['v'] then 1 else 0
       (st, s!"ok {b} {ms'.length} {a}")
     | _, _, _ => (st, "bad-op")
+  | "sst" :: items =>
+    -- shared string items `p:<hex>` (plain) / `r:<hex>:<hex>` (two runs); a row of cells t="s"
+    -- referring to them in order, read by GetRows from a workbook opened with the part spilled
+    let parse (w : String) : Option SI :=
+      match w.splitOn ":" with
+      | ["p", h] => (unhexS h).map fun v => ⟨some v, []⟩
+      | ["r", h1, h2] => match unhexS h1, unhexS h2 with
+        | some a, some b => some ⟨none, [a, b]⟩
+        | _, _ => none
+      | _ => none
+    match items.mapM parse with
+    | some is => (st, if is.isEmpty then "bad-op" else "ok " ++ showRow (spillStrings is))
+    | none => (st, "bad-op")
   | ["dump"] => withLoaded st fun w => (⟨st.raw, w⟩, showDump w.sheet)
   | ["spec", c, r] =>
     match c.toNat?, r.toNat? with
